@@ -172,6 +172,18 @@ def handle (op : String) (args : List String) : String :=
         | .ok none => "fwd-big"
         | .ok (some r) => errPrefix (sParsedReq r)
     | _, _, _, _, _ => "bad-op"
+  | "reqbig", n :: q :: a :: t :: ex =>
+    -- a request whose body is the tag 01 02 03 04 followed by n-4 zero bytes (n ≥ 4): only lengths are printed
+    match n.toNat?, pU64 q, pU64 a, pBool t, pReqExtra ex with
+    | some n, some q, some a, some t, some ex =>
+      if n < 4 then "bad-op" else
+      match preparePacket { body := [1, 2, 3, 4] ++ List.replicate (n - 4) 0, actorId := a, extra := ex, tl2 := t, queryId := q } with
+      | none => "big"
+      | some p =>
+        match parseInvokeReq (wireOf p) with
+        | .error e => s!"ok {p.1.length} {p.2} {sRErr e}"
+        | .ok h => s!"ok {p.1.length} {p.2} ok {h.request.length} {sReqExtra h.extra}"
+    | _, _, _, _, _ => "bad-op"
   | "parse", [w] =>
     match bytesOfHex w with
     | some w => errPrefix (sParsedReq (parseInvokeReq w))
